@@ -78,12 +78,19 @@ def capture(mp, items):
     in_q.items.clear(); out_q.items.clear(); in_q.pulled = 0
     return dict(loader=loader, workers=workers, in_q=in_q, out_q=out_q)
 
+def stream(n, at=None, hook=None):
+    """a lazily generated stream: every item is a fresh, short-lived object (as environments/tasks are in coba)"""
+    for i in range(n):
+        if at is not None and i == at: hook()
+        yield (i, str(i)*3)
+
 class F:
     """the wrapped filter"""
     def __init__(self, kind, bad=None, exc='ValueError'): self.kind, self.bad, self.exc = kind, bad, exc; self.seen = []
     LOG = []          # (participant name, item) - class attribute, shared by the copies the simulated children work on
     WHO = staticmethod(lambda: None)
     def filter(self, item):
+        if isinstance(item, tuple): item = item[0]           # items are fresh (i, 'iii') tuples, see stream()
         self.seen.append(item)
         F.LOG.append((F.WHO(), item))
         if self.bad is not None and item == self.bad:
@@ -115,7 +122,7 @@ def worker_line(sym, kind, exc):
     cap = capture(mp, [0,1])          # the queue content is loaded by the harness below
     line = cap['workers'][0].line
     in_q, out_q = cap['in_q'], cap['out_q']
-    content = [pickle.dumps(i) for i in range(q)]
+    content = [pickle.dumps(it) for it in stream(q)]
     if pos <= q: content.insert(pos, None)
     for c in content: in_q.put(c)
     raised, parked = None, False
@@ -141,6 +148,27 @@ def worker_line(sym, kind, exc):
         rest = content[len(handled) + (1 if line[0]._poisoned else 0):]
         sym.check(list(in_q.items) == rest, f"queue afterwards {len(in_q.items)} entries, expected the {len(rest)} entries that were not handled (an item was pulled and dropped)")
         sym.check(line[0]._poisoned == (len(in_q.items) + len(handled) < len(content)), "poisoned flag does not tell whether the pill was consumed")
+
+@obligation('C08','loader_line', bounds="K4: the real loader line (IterableSource -> Stopper -> Pickler -> QueueSink) and the loader callback on q<=5 lazily generated fresh items, n_processes in {1,2,3} with maxtasksperchild 1, the consumer's stop arriving before item s (z3 int) or never: the queue receives a faithful pickle of every item before the stop, in order, exactly once, followed by exactly n pills (none when stopped)",
+            functions=FUNCS, classify=_classify)
+def loader_line(sym):
+    q = unwrap(sym.int('q', 1, 5))
+    s_at = unwrap(sym.int('stop_at', 1, q))            # q: never stopped; the first item is peeked before the loader exists
+    n = sym.choice('n', [1,2,3])
+    mp = Multiprocessor(F('one'), n, 1)
+    items = stream(q, s_at if s_at < q else None, lambda: mp._load_stopper.stop())
+    cap = capture(mp, items)
+    raised = None
+    try: cap['loader'].line.run()
+    except Exception as e: raised = e
+    sym.check(raised is None, f"loader line raised {raised!r}")
+    got = [pickle.loads(x) for x in cap['in_q'].items]
+    exp = list(stream(q))[:s_at]
+    sym.check(got == exp, f"loader: the queue holds {got} but the items before the stop are {exp} (an item was lost, duplicated or replaced by another item's pickle)")
+    cap['in_q'].items.clear()
+    cap['loader'].callback(W(cap['loader'].line, False, None, 0))
+    pills = list(cap['in_q'].items)
+    sym.check(pills == ([None]*n if s_at >= q else []), f"loader finished: {pills} written for {n} workers (stopped={s_at < q})")
 
 class W:
     """worker stand-in handed to the completion callback"""
@@ -264,7 +292,7 @@ def schedules(sym, n, m, items, kind, bad, abandon, delays):
     def consumer():
         out, err = [], None
         try:
-            gen = mp.filter(list(range(items)))
+            gen = mp.filter(stream(items))
             for k,o in enumerate(gen):
                 out.append(o)
                 if abandon is not None and k+1 >= abandon: break
@@ -318,6 +346,7 @@ from coba.exceptions import CobaException
 class Filt:
     def __init__(self, kind, bad): self.kind, self.bad = kind, bad
     def filter(self, item):
+        item = item[0]
         if item == self.bad: raise ValueError(f"boom {item}")
         if self.kind == 'two': return iter([item*10, item*10+1])
         if self.kind == 'pid': return (os.getpid(), item)
@@ -329,7 +358,7 @@ if __name__ == '__main__':
     mpc = (CobaMultiprocessor if cfg.get('coba') else Multiprocessor)(Filt(cfg['kind'], cfg.get('bad')), cfg['n'], cfg['m'])
     out, err = [], None
     try:
-        for k,o in enumerate(mpc.filter(list(range(cfg['items'])))):
+        for k,o in enumerate(mpc.filter(((i, str(i)*3) for i in range(cfg['items'])))):
             out.append(o)
             if cfg.get('abandon') is not None and k+1 >= cfg['abandon']: break
     except Exception as e: err = type(e).__name__+': '+str(e)
@@ -349,7 +378,7 @@ def real_runs(tier, param, replay_model=None):
     d = tempfile.mkdtemp(prefix='c08_')
     try:
         f = os.path.join(d, 'real_main.py'); open(f,'w').write(REAL)
-        env = dict(os.environ); env['PYTHONPATH'] = '/repo'
+        env = dict(os.environ); env['PYTHONPATH'] = os.environ.get('VERIF_REPO','/repo')
         try:
             out = subprocess.run([sys.executable, '-W', 'ignore', f, json.dumps(param)], capture_output=True, text=True, timeout=90, env=env, cwd=d)
             line = next((l for l in out.stdout.splitlines() if l.startswith('RESULT')), None)
